@@ -289,7 +289,48 @@ def write_replay(prop, payload):
     return os.path.relpath(path, VERIF)
 
 
+class _Watchdog(BaseException):      # not an Exception: the harnesses' own `except Exception` around library calls must not swallow it
+    """raised by the alarm handler when one execution of a harness exceeds its wall-clock budget"""
+
+    def __init__(self, stack):
+        super().__init__('watchdog')
+        self.stack = stack
+
+
+def _budget(ctx):
+    base = int(os.environ.get('VERIF_WATCHDOG_S', '0') or 0)
+    if base:
+        return base
+    return 6 * 3600 if (ctx.tier == 'thorough' or ctx.search) else 1500
+
+
 def _execute(ctx, mod, prop, replay):
+    import signal
+
+    def on_alarm(signum, frame):
+        raise _Watchdog(traceback.extract_stack(frame))
+    old = signal.signal(signal.SIGALRM, on_alarm)
+    signal.setitimer(signal.ITIMER_REAL, _budget(ctx), 5)        # fires again every 5 s should anything swallow it
+    try:
+        _execute_inner(ctx, mod, prop, replay)
+    except _Watchdog as w:
+        inside = [f for f in w.stack if os.path.abspath(f.filename).startswith(os.path.abspath(REPO) + os.sep)]
+        where = ''.join(traceback.format_list(w.stack[-6:]))
+        if ctx.failures:
+            ctx.notes.append('run stopped by the watchdog after recording failures: ' + where[-400:])
+        elif inside:
+            # a library call did not come back within the whole budget of the run: on the unchanged tree every call returns in
+            # milliseconds, so the library's behaviour changed (a loop that no longer terminates, exponential work)
+            ctx.broken.append({'kind': 'library-call-did-not-return', 'detail': _short(where, 1500)})
+            ctx.notes.append('run stopped by the watchdog inside a library call')
+        else:
+            raise MachineryError('harness exceeded its time budget outside the library:\n' + where)
+    finally:
+        signal.setitimer(signal.ITIMER_REAL, 0)
+        signal.signal(signal.SIGALRM, old)
+
+
+def _execute_inner(ctx, mod, prop, replay):
     try:
         if replay:
             mod.replay(ctx, json.load(open(replay)))
@@ -304,11 +345,22 @@ def _execute(ctx, mod, prop, replay):
         ctx.flush_model()
     except MachineryError:
         raise
-    except Exception:
-        if not ctx.failures:
-            raise MachineryError('harness crashed:\n' + traceback.format_exc())
-        # the harness tripped over a library that already misbehaves: report the failing inputs found so far
-        ctx.notes.append('harness aborted after recording failures: ' + traceback.format_exc()[-400:])
+    except Exception as e:
+        tb = traceback.format_exc()
+        if ctx.failures:
+            # the harness tripped over a library that already misbehaves: report the failing inputs found so far
+            ctx.notes.append('harness aborted after recording failures: ' + tb[-400:])
+            return
+        frames = traceback.extract_tb(e.__traceback__)
+        if frames and os.path.abspath(frames[-1].filename).startswith(os.path.abspath(REPO) + os.sep):
+            # the exception was raised INSIDE the library by a call the harness makes unguarded because it cannot fail on the
+            # unchanged tree (setting up an input, rendering a value): the library's behaviour changed under the harness. That
+            # is a broken correspondence (never an exit 2, which would hide it): the verdict logic goes on to search for a
+            # concrete failing input and reports no-failing-input-found with this traceback otherwise.
+            ctx.broken.append({'kind': 'library-raised-in-harness', 'detail': _short(tb[-1500:], 1500)})
+            ctx.notes.append('run aborted: the library raised inside an unguarded harness call')
+            return
+        raise MachineryError('harness crashed:\n' + tb)
 
 
 def run_check(prop, tier, seed, replay=None):
